@@ -160,7 +160,30 @@ def gen_env(rng, pf):
         "ts_type": rng.choice(pf.get("ts_types", ["datetime", "datetime", "datetime", "timestamp", "timestamp", "mixed_grid_ts", "mixed_events_ts"])),
         "state": {"type": "rec", "feature": rng.random() < 0.7, "k": rng.randint(1, 4)},
     }
+    if pf.get("p_custom_frame") and rng.random() < pf["p_custom_frame"]:
+        route_custom_via_frame(rng, env)
     return env
+
+
+def route_custom_via_frame(rng, env):
+    """Custom events are loaded with Transmitter.add_custom_events from a table whose index is the
+    time the row becomes known; the table also carries its own 'time' column (the period a figure
+    refers to), which must play no role in delivery.  The rows are loaded after the other events,
+    class by class (the delivery model ranks insertion order accordingly)."""
+    rest = [e for e in env["events"] if e["type"] != "custom"]
+    cust = [e for e in env["events"] if e["type"] == "custom"]
+    if not cust:
+        return
+    out = []
+    for cls in ("EvA", "EvB", "EvC"):
+        rows = [e for e in cust if e["cls"] == cls]
+        for e in rows:
+            t = core.parse_t(e["t"])
+            e["via_frame"] = True
+            e["ref_t"] = core.iso(t + rng.choice([timedelta(0), timedelta(days=-1), timedelta(days=-3), timedelta(seconds=-60),
+                                                  timedelta(days=-30), timedelta(days=1)]))
+        out += rows
+    env["events"] = rest + out
 
 
 def gen_space(rng, pf, nc):
